@@ -51,6 +51,18 @@ def main():
             out["instance"] = contents(inst)
         except Exception as e:  # noqa
             out["instance"] = "exc:" + type(e).__name__
+        # a top-level LIST of configurations, saved twice into one directory: each keeps its data, the sources are intact
+        try:
+            d3 = wd / "savedlist"
+            d3.mkdir()
+            a, b = m.D(x=0, d=files[0]), m.D(x=1, d=files[1])
+            serialization.save([a, b], d3)
+            serialization.save([b, a], d3)
+            loaded = serialization.load(d3)
+            out["save_list"] = sorted(Path(c.d).read_text() for c in loaded)
+            out["sources_intact"] = [f.read_text() for f in files]
+        except Exception as e:  # noqa
+            out["save_list"] = "exc:" + type(e).__name__
         out["want"] = want
     finally:
         shutil.rmtree(wd, ignore_errors=True)
